@@ -221,6 +221,9 @@ def std_kinds(names, cfg_fn=None, cfg_fn2=None, partial_fn=None):
       'nt': Kind('nt', 2, False, lambda v: N.Pair(*v)),
       'ddict1': Kind('ddict1', 1, False, lambda v: collections.defaultdict(
           list, {'a': v[0]})),
+      # a defaultdict whose insertion order is not its sorted key order
+      'ddict2r': Kind('ddict2r', 2, False, lambda v: collections.defaultdict(
+          list, [('zeta', v[0]), ('alpha', v[1])])),
       'tmp': Kind('tmp', 2, False, lambda v: N.Tmp(*v)),
       'ntsub': Kind('ntsub', 2, False, lambda v: N.PairSub(*v)),
       'tvv': Kind('tvv', 1, False, lambda v: N.TagA.new(v[0]), True),
